@@ -6,7 +6,7 @@ use crate::{
     attr::{Attr, EnumAttr, FieldAttr, StructAttr, Tagged, VariantAttr},
     deps::Dependencies,
     types::{self, type_as, type_override},
-    utils::make_string_literal,
+    utils::{escape_string_expr, escape_string_literal, make_string_literal},
     DerivedTS,
 };
 
@@ -93,6 +93,9 @@ fn format_variant(
         ),
     };
 
+    // the name ends up between double quotes
+    let ts_name = escape_string_expr(&ts_name);
+
     let struct_attr = StructAttr::from_variant(enum_attr, &variant_attr, &variant.fields);
     let variant_type = types::type_def(
         &struct_attr,
@@ -117,6 +120,15 @@ fn format_variant(
         }
     };
 
+    // tag and content end up between double quotes
+    let (tag, content) = match enum_attr.tagged()? {
+        Tagged::Adjacently { tag, content } => {
+            (escape_string_literal(tag), escape_string_literal(content))
+        }
+        Tagged::Internally { tag } => (escape_string_literal(tag), String::new()),
+        Tagged::Externally | Tagged::Untagged => (String::new(), String::new()),
+    };
+
     let formatted = match (untagged_variant, enum_attr.tagged()?) {
         (true, _) | (_, Tagged::Untagged) => quote!(#parsed_ty),
         (false, Tagged::Externally) => match &variant.fields {
@@ -135,7 +147,7 @@ fn format_variant(
             }
             _ => quote!(format!("{{ \"{}\": {} }}", #ts_name, #parsed_ty)),
         },
-        (false, Tagged::Adjacently { tag, content }) => match &variant.fields {
+        (false, Tagged::Adjacently { .. }) => match &variant.fields {
             Fields::Unnamed(unnamed) if unnamed.unnamed.len() == 1 => {
                 let field = &unnamed.unnamed[0];
                 let field_attr = FieldAttr::from_attrs(&unnamed.unnamed[0].attrs)?;
@@ -166,7 +178,7 @@ fn format_variant(
                 format!("{{ \"{}\": \"{}\", \"{}\": {} }}", #tag, #ts_name, #content, #parsed_ty)
             ),
         },
-        (false, Tagged::Internally { tag }) => match variant_type.inline_flattened {
+        (false, Tagged::Internally { .. }) => match variant_type.inline_flattened {
             Some(_) => {
                 quote! { #parsed_ty }
             }
